@@ -2,17 +2,17 @@ NOTES = 'See DESIGN.md. All checks run the real maltoolbox code from /repo\'s wo
 NOT_YET = {}
 CHECKS['C05'] = ('model_checking',
   'explicit-state BFS over API-call histories of the real Model, lock-step reference model, deviation-bounded',
-  'Every history of Model/AttackerAttachment calls up to the reported depth and deviation budget over a <=3-asset universe is executed on the real code and compared step by step with an abstract reference model (ids, names, links, neighbours, entry points, failing calls change nothing); invalid calls include stale objects, associations with members that are not assets of the model, live asset objects added again and attachments equal to a live one.',
+  'Every history of Model/AttackerAttachment calls up to the reported depth and deviation budget over a <=3-asset universe is executed on the real code and compared step by step with an abstract reference model (ids, names, links, neighbours, entry points, failing calls change nothing); invalid calls include stale objects, associations with members that are not assets of the model, live asset objects added again, attachments equal to a live one, attachments that were given entry points before being added, and attachments added again.',
   'Trusted: CPython, python_jsonschema_objects. Bounded: depth/deviation/universe as reported in evidence; nothing claimed above the bound.',
   'DESIGN.md 3/C05')
 CHECKS['C01'] = ('model_checking',
   'bounded-exhaustive enumeration of (step expression, instance model) pairs executed on the real generator, compared with interval set semantics',
-  'Every statically well-typed step expression up to the operator bound (as generated attack steps of the SEM language family) is evaluated by the real AttackGraph generator on every instance model up to the asset/link bound; each node\'s child set must lie between the reference lower/upper semantics (equal when no * occurs), parents must be the converse, generation must terminate.',
+  'Every statically well-typed step expression up to the operator bound (as generated attack steps of the SEM language family) is evaluated by the real AttackGraph generator on every instance model up to the asset/link bound; each node\'s child set must lie between the reference lower/upper semantics (equal when no * occurs), parents must be the converse, generation must terminate (also on navigation chains of 4..40 hops over densely linked models, within a CPU-time limit).',
   'Trusted: CPython, python_jsonschema_objects, the 100-line reference evaluator (self-checked by algebraic laws). Set operators are applied per start asset (MAL semantics).',
   'DESIGN.md 3/C01')
 CHECKS['C03'] = ('model_checking',
   'explicit-state BFS to closure over lookup/regenerate/generate histories, one transition system per enumerated inheritance shape, reference fold as oracle',
-  'For every inheritance shape (absent / no-reaches / -> / +> at each of 4-6 levels incl. siblings) the real language graph is driven through every operation (resolve each type, regenerate, rebuild, build classes, generate attack graphs); the search closes at depth 1 with one state per language iff the lookup is pure, which covers histories of any length; every answer is compared with two independently written formulations of the root-down fold.',
+  'For every inheritance shape (absent / no-reaches / -> / +> at each of 4-6 levels incl. siblings) the real language graph is driven through every operation (resolve each type, regenerate, rebuild, build classes, generate attack graphs); the search closes at depth 1 with one state per language iff the lookup is pure, which covers histories of any length; every answer is compared with two independently written formulations of the root-down fold; a 400-level inheritance chain must load under a recursion limit of 350.',
   'Trusted: the 30-line reference fold (two formulations cross-checked). Metadata carried by redefinitions is not compared.',
   'DESIGN.md 3/C03')
 CHECKS['C02'] = ('model_checking',
@@ -52,7 +52,7 @@ CHECKS['C10'] = ('model_checking',
   'DESIGN.md 3/C10')
 CHECKS['C12'] = ('model_checking',
   'bounded-exhaustive enumeration of labelled synthetic graphs x all compromise sequences, queries compared with a 3-line reference after every step',
-  'Every graph with <=3 nodes over 14 kinds (or/and with arbitrary viability/necessity flags, defenses with status 0/0.5/1 and suppress tag), every edge subset, every compromise sequence up to the bound (second attacker present): traversability of every node, the attack surface, the incrementally updated surface vs the recomputed one, defense surface, enabled defenses, and the graph observation before/after every query.',
+  'Every graph with <=3 nodes over 14 kinds (or/and with arbitrary viability/necessity flags, defenses with status 0/0.5/1 and suppress tag), every edge subset, every compromise sequence up to the bound (second attacker present): traversability of every node, the attack surface, the incrementally updated surface vs the recomputed one (also with one list object passed as surface and as new nodes), defense surface, enabled defenses, and the graph observation before/after every query.',
   'Trusted: the reference definitions copied from the property statement.',
   'DESIGN.md 3/C12')
 CHECKS['C07'] = ('model_checking',
